@@ -73,6 +73,12 @@ class SetEval:
             c = callee_of(e)
             if c and c in self.F.fns and not e["args"]:
                 return self.fn(c, depth)
+            if c and c in self.F.fns and len(e["args"]) == 1 and depth < 8:
+                # helper taking an iterator of register numbers: evaluate the argument, then the body with the parameter bound
+                nums = self.nums(e["args"][0])
+                g = self.F.fn(c)
+                pn = g["hir"]["params"][0].get("name")
+                return self.ev_numbody(g["hir"]["value"], {pn: nums}, depth + 1)
             raise Anchor(f"cannot evaluate call {c} at {loc(e)}")
         if k == "Binary":
             a, b = self.ev(e["a"], depth), self.ev(e["b"], depth)
@@ -87,6 +93,83 @@ class SetEval:
         if k == "Block" and e.get("expr") is not None and not e.get("stmts"):
             return self.ev(e["expr"], depth)
         raise Anchor(f"cannot evaluate {k} as a register set at {loc(e)}")
+
+
+def _from_num_table(F):
+    """Register::from_num as {n: variant}"""
+    from .p_c08 import arm_table, ctor_names
+    f = F.fn(F.method(REG, "from_num"))
+    best = None
+    for m in find_matches(f["hir"]["value"]):
+        if any(isinstance(k, int) for k, _ in arm_table(m)):
+            best = m
+    if best is None:
+        raise Anchor("Register::from_num: no integer match")
+    out = {}
+    for k, arm in arm_table(best):
+        if isinstance(k, int):
+            cs = ctor_names(arm["body"], REG)
+            if len(cs) == 1:
+                out[k] = cs[0]
+    return out
+
+
+def _nums(self, e):
+    """evaluate an iterator-of-integers expression (ranges, arrays, chain) to a sorted list"""
+    e = peel(e)
+    k = e.get("k")
+    if k == "Call" and len(e["args"]) == 2 and (callee_of(e) or declared_callee(e) or "").endswith("RangeInclusive::<Idx>::new"):
+        a, b = lit_value(e["args"][0]), lit_value(e["args"][1])
+        if isinstance(a, int) and isinstance(b, int):
+            return list(range(a, b + 1))
+    if k == "Struct" and (e.get("path") or e.get("res") or "").split("<")[0].endswith("Range"):
+        fs = {f["name"]: lit_value(f["e"]) for f in e["fields"]}
+        if isinstance(fs.get("start"), int) and isinstance(fs.get("end"), int):
+            return list(range(fs["start"], fs["end"]))
+    if k == "Array":
+        vs = [lit_value(x) for x in e["elems"]]
+        if all(isinstance(v, int) for v in vs):
+            return vs
+    if k == "MethodCall":
+        if e["name"] == "chain" and len(e["args"]) == 1:
+            return self.nums(e["recv"]) + self.nums(e["args"][0])
+        if e["name"] in ("into_iter", "iter", "copied", "cloned", "rev") and not e["args"]:
+            return self.nums(e["recv"])
+    raise Anchor(f"cannot evaluate `{ekey(e)[:60]}` as a sequence of register numbers at {loc(e)}")
+
+
+def _ev_numbody(self, body, env, depth):
+    """body of a helper whose parameter is an iterator of numbers: <param>.(filter_map|map)(|n| Register::from_num(n)..).collect()"""
+    e = peel(body)
+    while e.get("k") == "Block" and not e.get("stmts") and e.get("expr") is not None:
+        e = peel(e["expr"])
+    chain = []
+    x = e
+    while x.get("k") == "MethodCall":
+        chain.append(x)
+        x = peel(x["recv"])
+    if not (x.get("k") == "Path" and x.get("res") in env):
+        raise Anchor(f"cannot evaluate helper body `{ekey(e)[:60]}` at {loc(e)}")
+    nums = env[x["res"]]
+    regs = None
+    for mc in reversed(chain):
+        if mc["name"] in ("filter_map", "map", "flat_map") and regs is None:
+            cl = [c for c in walk(mc["args"][0], pats=False) if c.get("k") == "Call" and (callee_of(c) or "").endswith("Register::from_num")]
+            if len(cl) != 1:
+                raise Anchor(f"helper maps numbers through something other than Register::from_num at {loc(mc)}")
+            tab = _from_num_table(self.F)
+            regs = frozenset(tab[n] for n in nums if n in tab)
+        elif mc["name"] in ("collect", "into_iter", "iter", "copied", "set", "into"):
+            continue
+        else:
+            raise Anchor(f"cannot evaluate `{mc['name']}` in a register-set helper at {loc(mc)}")
+    if regs is None:
+        raise Anchor(f"helper never maps numbers to registers at {loc(e)}")
+    return regs
+
+
+SetEval.nums = _nums
+SetEval.ev_numbody = _ev_numbody
 
 
 def class_sets(F):
